@@ -17,7 +17,26 @@ SYSTEMATIC_BASE = 5_000_000
 
 # C14: the listed known finding D7 must be met (and printed) by every run of the check:
 # a world whose last node has its (truncated) centroid pixel outside its own mask
+_PIN_BASE = {"dtype": "int32", "scale": None, "time_key": "time", "pos_mode": "single", "thick3d": False, "ids": "computed", "score": {}, "conf": {}, "enable": [], "subscribers": 1, "sibling": False}
 PINNED = {
+    # D16: a node added without pixels (position given) on tracks that carry a segmentation
+    "C07": [
+        {
+            "world": dict(_PIN_BASE, ndim=3, shape=[3, 6, 6], seg=True, nodes={"1": {"t": 0, "pix": [[1, 1], [1, 2]]}}, edges=[]),
+            "ops": [{"op": "add_node", "t": 1, "track": ["fresh", 0], "id": ["explicit", 2], "force": False, "pix": {}, "pos": [0.5, 0.5, 0.5], "no_pixels_with_pos": True}],
+        }
+    ],
+    # D17: ids recomputed by enable_features, then a history step
+    "C10": [
+        {
+            "world": dict(_PIN_BASE, ndim=3, shape=[4, 6, 6], seg=False, nodes={"1": {"t": 0, "pos": [1.0, 1.0]}, "2": {"t": 1, "pos": [2.0, 2.0]}, "3": {"t": 2, "pos": [3.0, 3.0]}, "4": {"t": 0, "pos": [4.0, 4.0]}, "5": {"t": 1, "pos": [5.0, 5.0]}}, edges=[[1, 2], [2, 3], [4, 5]]),
+            "ops": [
+                {"op": "delete_edge", "e": ["any", 2]}, {"op": "delete_edge", "e": ["any", 0]},
+                {"op": "enable", "keys": ["@track_id", "@lineage_id"], "unknown": False, "allow_ids": True},
+                {"op": "undo"}, {"op": "undo"},
+            ],
+        }
+    ],
     "C14": [
         {
             "world": {
